@@ -35,8 +35,8 @@ theorem C35_searchI_spec (t : ITree) (hn : NestedI t) (off id : Nat) (h : search
     Innermost off id t ∧ Cand off id t :=
   ⟨searchI_sound off id t hn h, Innermost.cand off id t (searchI_sound off id t hn h)⟩
 
-/-- Without any hypothesis on the tree (the spans the parser hands out are not always nested, see D60 in the
-    harness notes): the node returned is *reachable* at the offset — its own span and the spans of all nodes
+/-- Without any hypothesis on the tree (the spans the parser handed out were not always nested: D60 and D106,
+    both repaired since): the node returned is *reachable* at the offset — its own span and the spans of all nodes
     above it contain the offset — and no node below it is; and the search answers exactly when some node is
     reachable.  On a properly nested tree "reachable" is "its span contains the offset" (`reach_iff_cand`). -/
 theorem C35_searchI_spec_unconditional (t : ITree) (off : Nat) :
@@ -65,8 +65,9 @@ theorem C35_searchI_answers_iff (t : ITree) (hn : NestedI t) (off : Nat) :
   · rintro ⟨id, h⟩
     exact searchI_complete off id t hn h
 
-/-- Totality, including offsets past the end of the file: both searches are total functions of the
-    offset, and beyond every identifier span the identifier search answers `none`. -/
+/-- If every identifier span of the tree ends at or before `n` (hypothesis `hb`), the identifier search answers
+    `none` at every offset `off ≥ n` — in particular past the end of the file.  (That the searches are defined
+    at every offset is immediate: they are total functions.) -/
 theorem C35_search_past_end (t : STree) (n : Nat) (hb : ∀ off id, Hit off id t → off < n)
     (off : Nat) (h : n ≤ off) : search off t = none := by
   cases hs : search off t with
